@@ -167,6 +167,13 @@ var float32Sample = []float32{float32(math.Inf(-1)), -math.MaxFloat32, -1.5, -1,
 	math.SmallestNonzeroFloat32, 0.5, 1, 1.5, math.MaxFloat32, float32(math.Inf(1))}
 var stringSample = []string{"", "a", "ab", "b", "ba"}
 
+// order-embedded samples of the word-sized integer types: the ends of the range and values more than half the range apart
+var intSample = []int{math.MinInt, math.MinInt + 1, -(1 << 62), -(1 << 31), -1, 0, 1, 2, 1 << 31, 1 << 62, math.MaxInt - 1, math.MaxInt}
+var int64Sample = []int64{math.MinInt64, math.MinInt64 + 1, -(1 << 62), -(1 << 31), -1, 0, 1, 2, 1 << 31, 1 << 62, math.MaxInt64 - 1, math.MaxInt64}
+var int32Sample = []int32{math.MinInt32, math.MinInt32 + 1, -(1 << 30), -(1 << 15), -1, 0, 1, 2, 1 << 15, 1 << 30, math.MaxInt32 - 1, math.MaxInt32}
+var uintSample = []uint{0, 1, 2, 1 << 31, 1 << 32, 1 << 62, 1 << 63, 1<<63 + 1, math.MaxUint - 1, math.MaxUint}
+var uint64Sample = []uint64{0, 1, 2, 1 << 31, 1 << 32, 1 << 62, 1 << 63, 1<<63 + 1, math.MaxUint64 - 1, math.MaxUint64}
+
 func rankOf[T comparable](s []T, v T) int {
 	for i, x := range s {
 		if x == v {
@@ -276,6 +283,16 @@ func driveNum(plan []M, out *Out, _ []string) {
 				rankLine(out, ty, float32Sample, a, b, cc, 0, 1, true, typ.Clamp01[float32])
 			case "string":
 				rankLine(out, ty, stringSample, a, b, cc, "", "", false, nil)
+			case "int":
+				rankLine(out, ty, intSample, a, b, cc, 0, 0, false, nil)
+			case "int64":
+				rankLine(out, ty, int64Sample, a, b, cc, 0, 0, false, nil)
+			case "int32":
+				rankLine(out, ty, int32Sample, a, b, cc, 0, 0, false, nil)
+			case "uint":
+				rankLine(out, ty, uintSample, a, b, cc, 0, 0, false, nil)
+			case "uint64":
+				rankLine(out, ty, uint64Sample, a, b, cc, 0, 0, false, nil)
 			}
 		case "fsum":
 			// floating-point / complex Sum and Product: the built-in + and * are the primitives of the definition, so the
